@@ -201,7 +201,9 @@ where
     };
     let mut res: SmallVec<[_; N_NODES_ON_STACK]> = SmallVec::new();
     let mut cur_byte_offset = 0usize;
-    let mut close_additional_paren = false;
+    // Depths of the open calls in function call syntax whose comma we have already seen.
+    // When a closing paren takes us back to such a depth, an additional paren is closed.
+    let mut close_additional_paren_depths: SmallVec<[i32; N_NODES_ON_STACK]> = SmallVec::new();
     let mut open_paren_count = 0;
     for (i, c) in text.char_indices() {
         if c == ' ' && i == cur_byte_offset {
@@ -217,9 +219,9 @@ where
                 cur_byte_offset += 1;
                 open_paren_count -= 1;
                 res.push(ParsedToken::<T>::Paren(Paren::Close));
-                if close_additional_paren && open_paren_count == 0 {
+                if close_additional_paren_depths.last() == Some(&open_paren_count) {
                     res.push(ParsedToken::Paren(Paren::Close));
-                    close_additional_paren = false;
+                    close_additional_paren_depths.pop();
                 }
             } else if c == ',' {
                 // this is for binary operators with function call syntax.
@@ -231,8 +233,7 @@ where
                     exerr!("could not find operator for comma, could be operator with more than 2 args (not supported), missing operator, or paren mismatch",)
                 })?;
                 let op_at_comma = mem::replace(&mut res[op_idx], ParsedToken::Paren(Paren::Open));
-                close_additional_paren = true;
-                open_paren_count = 1;
+                close_additional_paren_depths.push(open_paren_count - 1);
                 res.push(ParsedToken::Paren(Paren::Close));
                 res.push(op_at_comma);
                 res.push(ParsedToken::Paren(Paren::Open));
@@ -245,18 +246,10 @@ where
                 let var_name = &text_rest[1..n_count];
                 cur_byte_offset += n_count + 1;
                 res.push(ParsedToken::Var(var_name));
-                if close_additional_paren && open_paren_count == 0 {
-                    res.push(ParsedToken::Paren(Paren::Close));
-                    close_additional_paren = false;
-                }
             } else if let Some(num_str) = is_numeric(text_rest) {
                 let n_bytes = num_str.len();
                 cur_byte_offset += n_bytes;
                 res.push(ParsedToken::<T>::Num(num_str.parse::<T>().map_err(to_ex)?));
-                if close_additional_paren && open_paren_count == 0 {
-                    res.push(ParsedToken::Paren(Paren::Close));
-                    close_additional_paren = false;
-                }
             } else if let Some((idx, op)) = find_ops(cur_byte_offset_tmp) {
                 let n_bytes = op.repr().len();
                 cur_byte_offset += n_bytes;
@@ -269,10 +262,6 @@ where
                 let n_bytes = var_str.len();
                 cur_byte_offset += n_bytes;
                 res.push(ParsedToken::<T>::Var(var_str));
-                if close_additional_paren && open_paren_count == 0 {
-                    res.push(ParsedToken::Paren(Paren::Close));
-                    close_additional_paren = false;
-                }
             } else {
                 return Err(exerr!("don't know how to parse {}", text_rest));
             }
